@@ -61,7 +61,7 @@ Example accept_stop_lets_handler_finish :
 Proof. reflexivity. Qed.
 (* all four ports loaded at once: the model serves them in priority order *)
 Example ex_ports_loaded :
-  let w := run_dops 4 20 [0] (init [mkCfg ([], ROk) ([], ROk) ([], ROk) (SupScript ([], ROk)) None] [])
+  let w := run_dops 4 20 [0] (init [mkCfg ([], ROk) ([], ROk) ([], ROk) (SupScript ([], ROk)) None false] [])
              [DL (LSpawn 0); DSettle; DL (LSend 0 1); DL (LStop 0 None)] in
   trace_of (run_dops 4 20 [0] w [DSettle]) =
   [TEnter 0 PreStart; TExit 0 PreStart ROk; TSpawnRet 0 true; TEnter 0 PostStart; TExit 0 PostStart ROk;
